@@ -17,7 +17,7 @@ range outside that buffer, a FixedSizeBinary row outside the data — is a viola
 gives there (`C17/out-of-range/…`; `readRecord_touch_in_range`: no successful read of the model does that).
 
 `untouched-coincidence` (an `Ok` equal to the base read although the FOOTPRINT differs and `Spec.decodeAt` rejects
-the slot or reads it differently) is no longer an escape.  It would need a reader that LOOKS at the corrupted datum
+the slot or reads it differently) is not an escape.  It would need a reader that LOOKS at the corrupted datum
 (`touchEq` is the exact footprint of a successful read), accepts it although the Arrow reading rejects it, and still
 produces the base value.  The readers accept more than `Spec.decodeAt` in exactly two places, both recorded known
 findings: (a) typed reads of struct / list / map columns into non-Option targets never consult the container's
@@ -39,7 +39,7 @@ where the coincidences of the thorough tier go: e.g. seed 3 has 5 reads equal to
 footprint, all of them explained this way).  The compound of the two known findings (a typed read that does not
 look at a container's broken validity and finds an empty element beyond the child) is reported as
 `C17/empty-range-beyond-child`.  Quick and
-thorough tier, seeds 1–3, unchanged tree: the tag never occurs.
+thorough tier, seeds 1–3, on the repository as it stands: the tag `untouched-coincidence` never occurs.
 Correspondence also covers the theorem itself: where `touchEq` holds, the implementation's outcome on the corrupted
 view must be its outcome on the base view (same class, same value), for every read, Ok or not. -/
 namespace Driver.Suites.Corrupt
